@@ -83,7 +83,7 @@ Theorem C16_cvsid_kinds_settle : forall (k : idkind) (ls ls' : list str),
 Proof. exact check_cvsid_settles. Qed.
 Print Assumptions C16_cvsid_kinds_settle.
 
-(* CheckLinesPlist (CVS id, empty-line deletion, ${PKGMANDIR}, manual-page .gz): for
+(* CheckLinesPlist (CVS id, empty-line deletion, ${PKGMANDIR}, manual-page .gz, @unexec rmdir): for
    every PLIST with at least one line the pass neither panics nor runs out of fuel *)
 Theorem C16_plist_pass_total : forall ls : list str, ls <> [] -> exists o, plist_pass ls = POk o.
 Proof. exact plist_pass_total. Qed.
@@ -148,6 +148,10 @@ Example C16_line_settles_examples :
   /\ line_settles [36;123;80;76;73;83;84;46;120;125;109;97;110;47;99;97;116;49;47;97;46;48;46;103;122] = true   (* ${PLIST.x}man/cat1/a.0.gz *)
   /\ gz_offered [109;97;110;47;109;97;110;49;47;97;46;49;46;103;122] = true.
 Proof. repeat split; vm_compute; reflexivity. Qed.
+Example C16_unexec_rmdir_example :
+  plist_line_fix [64;117;110;101;120;101;99;32;114;109;100;105;114;32;37;68;47;115;104;97;114;101;47;120] = LDelete                 (* @unexec rmdir %D/share/x *)
+  /\ plist_line_fix [64;117;110;101;120;101;99;32;36;123;82;77;68;73;82;125;32;37;68;47;121;32;124;124;32;36;123;84;82;85;69;125] = LKeep [64;117;110;101;120;101;99;32;36;123;82;77;68;73;82;125;32;37;68;47;121;32;124;124;32;36;123;84;82;85;69;125].
+Proof. split; vm_compute; reflexivity. Qed.
 Example C16_name_ok_example : name_ok [99;97;116;47;112;47;77;97;107;101;102;105;108;101].      (* cat/p/Makefile *)
 Proof. split; [discriminate|vm_compute; reflexivity]. Qed.
 (* the Go code panics (paras[0]) on a Makefile.common of three empty lines; the model says so *)
